@@ -368,21 +368,32 @@ def apply_rewrites(src, mask, it, ed, stats, spec_entry):
     return
 
 
+def first_param(src, it):
+    m = re.search(r'\(\s*(?:mut\s+)?([A-Za-z_][A-Za-z0-9_]*)\s*:', src[it['kw']:it['body_start']])
+    return m.group(1) if m else None
+
+
 def assemble(repo, spec, rows=None, canary=None, opts=None):
     """Build the Verus crate text. Returns dict(text, units, linemap(list of (mod, srcline)|None), stats, registry)."""
     opts = opts or {}
     srcs = load_sources(repo)
     reg = registry(srcs)
+    ROWS = getattr(rows, 'ROWS', {}) if rows else {}
     stats = {k: 0 for k in REWRITE_STATS_KEYS}
     stats.update(external_derive=0, external_body=0, external=0, dropped_use=0, dropped_test_mod=0,
-                 fns_total=0, fns_verified=0, fns_trusted=0, fns_external=0, ret_named=0)
+                 fns_total=0, fns_verified=0, fns_trusted=0, fns_external=0, ret_named=0, instruction_copies=0)
     out = []; linemap = []; units = []
+    bind = {}
+    for name, rmod, fn, line in reg:
+        bind.setdefault((rmod, fn.split('::')[-1]), []).append(name)
+    for k in bind: bind[k].sort()
+    unbound_rows = sorted(set(ROWS) - set(n for n, _, _, _ in reg))
+    names_without_row = sorted(set(n for n, _, _, _ in reg) - set(ROWS))
 
     def emit(text, lm=None, mod=None):
         n = text.count('\n')
         if lm is None:
             lm = [None] * (n + 1)
-        # text always ends with \n here
         out.append(text)
         for k in range(n):
             linemap.append((mod, lm[k]) if lm[k] else None)
@@ -391,36 +402,35 @@ def assemble(repo, spec, rows=None, canary=None, opts=None):
     emit(HEADER)
     emit(prelude if prelude.endswith('\n') or not prelude else prelude + '\n')
     emit('pub mod push {\n')
-    name_units = {}
-    if rows:
-        # NAME -> row; registry binds NAME -> fn
-        pass
     for mod in MODULES:
         src = srcs[mod]; mask = rsitems.scan_tokens(src)
         its = rsitems.items(src, mask=mask)
         ed = Edits(src)
-        fn_marks = []   # (unit, start_offset, end_offset)
+        ctx = dict(src=src, mask=mask, ed=ed, marks=[], line_off=0)
         uses_rand = False
-        extra_units_text = []
+        copies = []   # (text, linemap) of instruction copies
 
-        def handle_fn(it):
-            path = fn_path(mod, it)
-            stats['fns_total'] += 1
-            line = src.count('\n', 0, it['kw']) + 1
+        def handle_fn(it, ctx, name=None, path_override=None):
+            src = ctx['src']; mask = ctx['mask']; ed = ctx['ed']
+            path = path_override or fn_path(mod, it)
+            line = src.count('\n', 0, it['kw']) + 1 + ctx['line_off']
             if it['body_start'] is None:
                 return  # trait method declaration
-            e = spec.fn.get(path)
+            stats['fns_total'] += 1
+            e = spec.fn.get(fn_path(mod, it) if path_override is None else path_override.split('@')[0])
             kind = 'verified'
             reason = ''
-            if path in spec.ignore or any(path.startswith(p + '::') for p in spec.ignore):
+            base_path = path.split('@')[0]
+            if base_path in spec.ignore:
                 kind = 'ignored'
-            elif path in spec.external:
-                kind = 'external'; reason = spec.external[path]
+            elif base_path in spec.external:
+                kind = 'external'; reason = spec.external[base_path]
             elif e and e['kind'] == 'trusted':
                 kind = 'trusted'; reason = e['reason']
             u = Unit(path, mod, kind, line, reason)
+            u.name = name
             units.append(u)
-            fn_marks.append((u, it['start'], it['end']))
+            ctx['marks'].append((len(units) - 1, it['start'], it['end']))
             if kind == 'ignored':
                 return
             kwline = src.rfind('\n', 0, it['kw']) + 1
@@ -429,46 +439,76 @@ def assemble(repo, spec, rows=None, canary=None, opts=None):
                 ed.insert(kwline, indent + '#[verifier::external_body]\n', prio=1)
                 stats['external_body'] += 1
                 stats['fns_external' if kind == 'external' else 'fns_trusted'] += 1
-                if path in opts.get('stub_bodies', ()):   # bodies naming crates Verus cannot resolve
-                    ed.replace(it['body_start'], it['end'], '{ unimplemented!() }')
             else:
                 stats['fns_verified'] += 1
+            text = ''
+            row = ROWS.get(name) if name else None
+            if row is not None:
+                P = first_param(src, it)
+                if P is None: raise ToolError('instruction %s: cannot find the state parameter of %s' % (name, path))
+                text += row.contract(P)
             if e:
                 if e['attrs']:
                     ed.insert(kwline, ''.join(indent + l + '\n' for l in e['attrs'].strip().split('\n')), prio=0)
                 if e['ret']:
                     if ret_rewrite(src, mask, it, e['ret'], ed): stats['ret_named'] += 1
-                text = e['text']
-                if canary == path:
-                    text = text.rstrip('\n')
-                    text += ('\n' if text else '') + ('    ensures false, // CANARY\n' if 'ensures' not in text else '        false, // CANARY\n')
-                if text.strip():
-                    ed.insert(it['body_start'], '\n' + text + indent, prio=0)
-                if kind == 'verified':
-                    loops = find_loops(src, mask, it['body_start'] + 1, it['end'] - 1)
-                    for k, t in e['loops'].items():
+                if row is not None and e['text'].strip():
+                    # extra clauses of the overlay follow the row's `ensures` list
+                    t = re.sub(r'^\s*ensures\b', '', e['text'], count=1)
+                    text += t
+                else:
+                    text += e['text']
+            if canary == path and kind == 'verified':
+                text = text.rstrip('\n')
+                text += ('\n' if text else '') + ('    ensures false, // CANARY\n' if not re.search(r'\bensures\b', text) else '        false, // CANARY\n')
+            if text.strip():
+                ed.insert(it['body_start'], '\n' + text + indent, prio=0)
+            if e and kind == 'verified':
+                loops = find_loops(src, mask, it['body_start'] + 1, it['end'] - 1)
+                for k, t in e['loops'].items():
+                    if k >= len(loops):
+                        raise ToolError('lost anchor: %s has no loop %d' % (path, k))
+                    ed.insert(loops[k]['body_open'], '\n' + t + indent + '    ', prio=0)
+                for w, t in e['proofs'].items():
+                    if w == 'body_start':
+                        ed.insert(it['body_start'] + 1, '\n' + t, prio=0)
+                    elif w == 'tail':
+                        ed.insert(tail_pos(src, mask, it['body_start'], it['end'] - 1), t + indent + '    ', prio=0)
+                    else:
+                        m = re.match(r'loop\s+(\d+)\s+(start|end)$', w)
+                        if not m: raise ToolError('bad proof position %r for %s' % (w, path))
+                        k = int(m.group(1))
                         if k >= len(loops):
                             raise ToolError('lost anchor: %s has no loop %d' % (path, k))
-                        ed.insert(loops[k]['body_open'], '\n' + t + indent + '    ', prio=0)
-                    for w, t in e['proofs'].items():
-                        if w == 'body_start':
-                            ed.insert(it['body_start'] + 1, '\n' + t, prio=0)
-                        elif w == 'tail':
-                            ed.insert(tail_pos(src, mask, it['body_start'], it['end'] - 1), t + indent + '    ', prio=0)
+                        if m.group(2) == 'start':
+                            ed.insert(loops[k]['body_open'] + 1, '\n' + t, prio=0)
                         else:
-                            m = re.match(r'loop\s+(\d+)\s+(start|end)$', w)
-                            if not m: raise ToolError('bad proof position %r for %s' % (w, path))
-                            k = int(m.group(1))
-                            if k >= len(loops):
-                                raise ToolError('lost anchor: %s has no loop %d' % (path, k))
-                            if m.group(2) == 'start':
-                                ed.insert(loops[k]['body_open'] + 1, '\n' + t, prio=0)
-                            else:
-                                ed.insert(loops[k]['body_close'], t, prio=0)
-            elif canary == path and kind == 'verified':
-                ed.insert(it['body_start'], '\n    ensures false, // CANARY\n' + indent, prio=0)
+                            ed.insert(loops[k]['body_close'], t, prio=0)
             if kind == 'verified':
                 apply_rewrites(src, mask, it, ed, stats, e)
+
+        def handle_top_fn(it):
+            names = bind.get((mod, it['name']), []) if it.get('parent') is None else []
+            if not names or not ROWS:
+                handle_fn(it, ctx, name=names[0] if names else None); return
+            handle_fn(it, ctx, name=names[0])
+            for extra in names[1:]:
+                # the same function registered under a second NAME: a renamed copy, checked against that NAME's row
+                suffix = '__as__' + re.sub(r'[^A-Za-z0-9]', '_', extra)
+                sub = src[it['start']:it['end']] + '\n'
+                kw_rel = it['kw'] - it['start']
+                m = re.match(r'((?:pub(?:\([a-z]+\))?\s+)?fn\s+)([A-Za-z_0-9]+)', sub[kw_rel:])
+                sub = sub[:kw_rel] + m.group(1) + m.group(2) + suffix + sub[kw_rel + m.end():]
+                smask = rsitems.scan_tokens(sub)
+                sits = [x for x in rsitems.items(sub, mask=smask) if x['kind'] == 'fn']
+                sctx = dict(src=sub, mask=smask, ed=Edits(sub), marks=[], line_off=src.count('\n', 0, it['start']))
+                handle_fn(sits[0], sctx, name=extra, path_override='%s::%s@%s' % (mod, it['name'], extra))
+                for idx, a, b in sctx['marks']:
+                    sctx['ed'].insert(a, '/*U<%d*/' % idx, prio=-5); sctx['ed'].insert(b, '/*U>*/', prio=5)
+                t, lm = sctx['ed'].apply()
+                lm = [(x + sctx['line_off']) if x else None for x in lm]
+                copies.append((t if t.endswith('\n') else t + '\n', lm))
+                stats['instruction_copies'] += 1
 
         for it in its:
             k = it['kind']
@@ -509,40 +549,42 @@ def assemble(repo, spec, rows=None, canary=None, opts=None):
                     for c in it.get('children', []):
                         if c['kind'] == 'fn' and c['body_start'] is not None:
                             u = Unit(fn_path(mod, c), mod, 'ignored', src.count('\n', 0, c['kw']) + 1, spec.ignore[p])
-                            units.append(u); fn_marks.append((u, c['start'], c['end'])); stats['fns_total'] += 1
+                            units.append(u); ctx['marks'].append((len(units) - 1, c['start'], c['end'])); stats['fns_total'] += 1
                     continue
                 for c in it.get('children', []):
-                    if c['kind'] == 'fn': handle_fn(c)
+                    if c['kind'] == 'fn': handle_fn(c, ctx)
                 continue
             if k == 'trait':
                 for c in it.get('children', []):
-                    if c['kind'] == 'fn': handle_fn(c)
+                    if c['kind'] == 'fn': handle_fn(c, ctx)
                 continue
             if k == 'fn':
-                handle_fn(it)
+                handle_top_fn(it)
         # drop `extern crate`
         for m in re.finditer(r'^[ \t]*extern\s+crate\s+\w+\s*;[ \t]*\n', src, re.M):
             if mask[m.start() + len(m.group(0)) - len(m.group(0).lstrip())] == ord('c'):
                 ed.replace(m.start(), m.end(), '')
-        # markers so that unit spans can be found in the generated text
-        for idx, (u, a, b) in enumerate(fn_marks):
-            ed.insert(a, '/*U<%d*/' % (len(units) - len(fn_marks) + idx), prio=-5)
+        for idx, a, b in ctx['marks']:
+            ed.insert(a, '/*U<%d*/' % idx, prio=-5)
             ed.insert(b, '/*U>*/', prio=5)
         text, lm = ed.apply()
         if not text.endswith('\n'):
             text += '\n'; lm.append(None)
         emit('pub mod %s {\n' % mod)
         emit('#[allow(unused_imports)] use vstd::prelude::*;\n#[allow(unused_imports)] use crate::spec::*;\n')
+        emit('broadcast use {crate::spec::group_float_total, crate::tstd::group_tstd};\n')
         if uses_rand:
             emit('#[allow(unused_imports)] use crate::rand_stub as rand;\n')
         emit(text, lm, mod)
+        for t, clm in copies:
+            emit('// ---- copy of a function registered under a further instruction NAME ----\n')
+            emit(t, clm, mod)
         for g in spec.ghost.get(mod, []):
             emit('// ---- ghost (spec) ----\n'); emit(g if g.endswith('\n') else g + '\n')
         emit('} // mod %s\n' % mod)
     emit('} // mod push\n')
     emit('} // verus!\nfn main() {}\n')
     full = ''.join(out)
-    # unit spans from markers
     lines = full.split('\n')
     stack = []
     for i, l in enumerate(lines):
@@ -551,7 +593,8 @@ def assemble(repo, spec, rows=None, canary=None, opts=None):
                 stack.append(int(m.group(1))); units[int(m.group(1))].gen_lo = i + 1
             else:
                 units[stack.pop()].gen_hi = i + 1
-    return dict(text=full, units=units, linemap=linemap, stats=stats, registry=reg)
+    return dict(text=full, units=units, linemap=linemap, stats=stats, registry=reg,
+                unbound_rows=unbound_rows, names_without_row=names_without_row)
 
 
 HEADER = '''// GENERATED by /verif/tools/gen.py from /repo/src/push/*.rs -- do not edit.
@@ -576,3 +619,91 @@ if __name__ == '__main__':
     open(a.out, 'w').write(r['text'])
     print(json.dumps(r['stats']))
     print(len(r['units']), 'units;', len(r['registry']), 'registry entries')
+
+
+# ------------------------------------------------------------------------------------------------
+# Instruction rows -> contracts (DESIGN 3.1)
+# ------------------------------------------------------------------------------------------------
+STATE_FIELDS = [
+    ('bool', 'bool_stack', 'stack'), ('code', 'code_stack', 'stack'), ('exec', 'exec_stack', 'stack'),
+    ('float', 'float_stack', 'stack'), ('index', 'index_stack', 'stack'), ('int', 'int_stack', 'stack'),
+    ('name', 'name_stack', 'stack'), ('boolvec', 'bool_vector_stack', 'stack'),
+    ('floatvec', 'float_vector_stack', 'stack'), ('intvec', 'int_vector_stack', 'stack'),
+    ('input', 'input_stack', 'buffer'), ('output', 'output_stack', 'buffer'), ('graph', 'graph_stack', 'buffer'),
+    ('bindings', 'name_bindings', 'map'), ('config', 'configuration', 'plain'),
+    ('quote', 'quote_name', 'plain'), ('send', 'send_name', 'plain')]
+FIELD = {s: (f, k) for s, f, k in STATE_FIELDS}
+
+
+def expand_state(expr, P):
+    """S0.<short> / S1.<short> -> old(P).<field>[@] / final(P).<field>[@];  S0 / S1 alone -> *old(P) / *final(P)"""
+    def rep(m):
+        which, short = m.group(1), m.group(2)
+        base = 'old(%s)' % P if which == '0' else 'final(%s)' % P
+        if short is None:
+            return '(*%s)' % base
+        if short not in FIELD:
+            raise ToolError('unknown state field %r in row expression %r' % (short, expr))
+        f, k = FIELD[short]
+        return '%s.%s%s' % (base, f, '@' if k in ('stack', 'map') else '')
+    return re.sub(r'\bS([01])(?:\.([a-z]+)\b)?', rep, expr)
+
+
+class Row:
+    """One registered instruction NAME: what it takes, when it fires, what it pushes (from the docs / the property text)."""
+    def __init__(self, name, props, takes=(), guard=None, pushes=(), clauses=(), touches=(), requires=(), fired=None,
+                 unfired_free=(), note=''):
+        self.name = name; self.props = list(props); self.takes = list(takes); self.guard = guard
+        self.pushes = list(pushes); self.clauses = list(clauses); self.touches = list(touches)
+        self.requires = list(requires); self.fired_override = fired; self.unfired_free = list(unfired_free); self.note = note
+
+    def fired_expr(self):
+        if self.fired_override is not None:
+            return self.fired_override
+        conds = ['S0.%s.len() >= %d' % (s, n) for s, n in self.takes]
+        if self.guard: conds.append('(%s)' % self.guard)
+        return '(' + ' && '.join(conds) + ')' if conds else 'true'
+
+    def contract(self, P):
+        props = ','.join(self.props)
+        tag = self.name
+        out = ['    requires envelope(*old(%s)),' % P]
+        for r in self.requires:
+            out.append('        %s,' % expand_state(r, P))
+        out.append('    ensures')
+        F = self.fired_expr()
+        always = (F == 'true')
+        taken = {}
+        for s, n in self.takes: taken[s] = taken.get(s, 0) + n
+        pushed = {}
+        for p in self.pushes:
+            pushed.setdefault(p[0], []).append(p)
+        touched = list(dict.fromkeys(list(taken) + list(pushed)))
+        raw_covered = set(self.touches)
+        def cl(expr, kind, props_):
+            out.append('        %s, // [%s|%s|%s]' % (expand_state(expr, P), props_, tag, kind))
+        pre = '' if always else '%s ==> ' % F
+        for s in touched:
+            if s in raw_covered: continue
+            nd = taken.get(s, 0); ps = pushed.get(s, [])
+            cl('%s(S1.%s.len() == S0.%s.len() - %d + %d && S1.%s.subrange(0, S0.%s.len() - %d) =~= S0.%s.subrange(0, S0.%s.len() - %d))'
+               % (pre, s, s, nd, len(ps), s, s, nd, s, s, nd), 'fired.shape.%s' % s, props + ',C10')
+            for k, p in enumerate(ps):
+                val = p[1]; cond = p[2] if len(p) > 2 else None
+                if val is None: continue
+                c2 = (F if not always else 'true') + ((' && (%s)' % cond) if cond else '')
+                cl('%s ==> S1.%s[S0.%s.len() - %d + %d] == (%s)' % (c2, s, s, nd, k, val), 'fired.value.%s.%d' % (s, k), props)
+            if not always:
+                if nd > 0:
+                    cl('!%s ==> shrunk(S0.%s, S1.%s, %d)' % (F, s, s, nd), 'unfired.%s' % s, 'C10')
+                else:
+                    cl('!%s ==> S1.%s == S0.%s' % (F, s, s), 'unfired.nopush.%s' % s, 'C10')
+        for lab, expr in self.clauses:
+            lp = props
+            m = re.match(r'^\{([A-Z0-9,]+)\}\s*(.*)$', lab)
+            if m: lp, lab = m.group(1), m.group(2)
+            cl(expr, lab, lp)
+        for s, f, k in STATE_FIELDS:
+            if s in touched or s in raw_covered: continue
+            cl('S1.%s == S0.%s' % (s, s), 'frame.%s' % s, 'C10')
+        return '\n'.join(out) + '\n'
